@@ -83,4 +83,25 @@ example : vtuLayout (vtuArrays wPolys).1 (vtuArrays wPolys).2.1 (vtuArrays wPoly
 example : asciiTokens true 2 [255, 255, 1, 0] = [-1, 1] := by decide
 example : asciiRead 2 [-1, 1] = [255, 255, 1, 0] := by decide
 
+-- ---- raw-appended fallback parser (finding C05-RAWTAG)
+-- (the encoding is looked for in the 100 bytes before the data: a realistic head is longer than that)
+def wHead : List Nat := strBytes "<VTKFile>" ++ List.replicate 100 32 ++ strBytes "<AppendedData encoding=\"raw\">_"
+def wTail : List Nat := strBytes "</VTKFile>"
+
+-- an appendix without the needle: hypothesis of C05_raw_appendix_end_partial holds, and the whole
+-- fallback extraction returns the appendix and the encoding name
+example : ∀ j, j < (wHead ++ [1, 0, 0, 0, 60, 47]).length →
+    startsWith closeTag ((wHead ++ [1, 0, 0, 0, 60, 47] ++ closeTag ++ wTail).drop j) = false := by decide +kernel
+example : fallbackAppendix (wHead ++ [1, 0, 0, 0, 60, 47] ++ closeTag ++ wTail)
+    = some ([1, 0, 0, 0, 60, 47], strBytes "raw") := by decide +kernel
+
+-- NEGATION WITNESS of the full statement: the payload bytes contain `</AppendedData>`; the end of the
+-- appendix is found too early and the extracted appendix is cut (4 of 22 bytes survive)
+def wBad : List Nat := [18, 0, 0, 0] ++ closeTag ++ [1, 2, 3]
+example : bfind closeTag (wHead ++ wBad ++ closeTag ++ wTail) 0 ≠ some (wHead ++ wBad).length := by decide +kernel
+example : fallbackAppendix (wHead ++ wBad ++ closeTag ++ wTail) = some ([18, 0, 0, 0], strBytes "raw") := by decide +kernel
+-- … and a payload containing `<AppendedData` derails the encoding detection (rfind takes the last occurrence)
+def wBad2 : List Nat := [16, 0, 0, 0] ++ openTag ++ [1, 2, 3]
+example : (fallbackAppendix (wHead ++ wBad2 ++ closeTag ++ wTail)).map (·.2) ≠ some (strBytes "raw") := by decide +kernel
+
 end Fc
